@@ -15,6 +15,7 @@ case "$id" in
   C18) syncpk="protocol/binary,internal/frame,internal/plugin,internal/concurrent" ;;
   C20) maprange="compile,internal/compare,internal/git" ;;
   C10) maprange="compile,gen,internal/plugin,plugin" ;;
+  C17) maprange="gen" ;;
 esac
 if [ -n "$maprange$syncpk$logpk" ]; then
   go build -o bin/overlaygen ./tools/overlaygen || exit 2
